@@ -34,7 +34,7 @@ pub fn run(ctx: &Ctx) -> (Report, Meta) {
         allow_max_steps: true,
         ..Default::default()
     };
-    let n = ctx.size(500, 25_000);
+    let n = ctx.size(3_000, 300_000);
     let rep = par_for(n, "C12", |i, rep| {
         let case_id = format!("base/{}", i);
         if !ctx.want(&case_id) {
